@@ -670,10 +670,45 @@ func ruleL3(c *Ctx) *RuleResult {
 			key := fmt.Sprintf("%s|section#%d", FuncName(fn), sec)
 			what := "after a critical section on " + cls.Name + " that changes wait-predicate fields (" + c.fieldSetNames(mods) + "), every path to a success return passes Cond.Broadcast"
 			// search a path Lock → success return avoiding Broadcast
-			bad := pathAvoiding(c, fn, call, func(x ssa.Instruction) bool {
+			isBroadcast := func(x ssa.Instruction) bool {
 				if cc, ok := x.(*ssa.Call); ok && classifySync(&cc.Call) == opBroadcast {
 					if k, _ := li.condOfReceiver(cc.Call.Args[0]); k == cls {
 						return true
+					}
+				}
+				return false
+			}
+			bad := pathAvoiding(c, fn, call, func(x ssa.Instruction) bool {
+				if isBroadcast(x) {
+					return true
+				}
+				// a helper of the same package that does nothing but wake the waiters (`m.wakeWaiters()`): every path
+				// through it broadcasts
+				if cc, ok := x.(*ssa.Call); ok {
+					if g := cc.Call.StaticCallee(); g != nil && InRootPkg(g) && g.Blocks != nil && len(g.Blocks) <= 3 {
+						blocked := map[int]bool{}
+						for _, b := range g.Blocks {
+							for _, in := range b.Instrs {
+								if isBroadcast(in) {
+									blocked[b.Index] = true
+								}
+							}
+						}
+						if len(blocked) > 0 {
+							if blocked[0] {
+								return true
+							}
+							seen := reachableBlocks(g, 0, nil, blocked)
+							all := true
+							for _, b := range g.Blocks {
+								if seen[b.Index] {
+									if _, isRet := b.Instrs[len(b.Instrs)-1].(*ssa.Return); isRet {
+										all = false
+									}
+								}
+							}
+							return all
+						}
 					}
 				}
 				return false
